@@ -24,7 +24,7 @@ TraceInputSets == LET M == ModelLines IN [j \in DOMAIN M |-> {M[j].inputs}]
 VARIABLES l,     \* next line of the log
           sc,    \* index of the current scenario (= its model index)
           seen,  \* violations already reported in this scenario
-          thrash \* an ungated run with fewer cache slots than concurrently active processes
+          thrash \* the known finding that explains ANY deviation of this scenario, or "" (ungated runs)
 
 ovars == <<vars, l, sc, seen, thrash>>
 
@@ -196,16 +196,25 @@ Line(kind, v, r) ==
 (* number of concurrently active processes) is loaded again on the next access and then       *)
 (* exists twice: both instances see a step finish and both start its successor, or each       *)
 (* misses what the other did (cache.rs:19-34, 69-89; nothing pins a process that is in use).  *)
+(* KF_unsynchronised_process: nothing serialises the work on one process (the process-level   *)
+(* mutex is commented out, process.rs:62,355; task.rs:61,385): on a multi-thread runtime a     *)
+(* client action runs on the caller's thread while the scheduler thread executes tasks of the  *)
+(* same process; both can review the same step (duplicate successor), or one finishes a task   *)
+(* the other is working on.  Ungated runs on a multi-thread runtime are judged with this       *)
+(* classifier; gated runs and current-thread runs are not.                                     *)
 Report(VS, r) ==
   \A v \in VS :
-    LET w == IF v.kf = {} /\ thrash THEN [v EXCEPT !.kf = {"KF_cache_thrash_instances"}] ELSE v
+    LET w == IF v.kf = {} /\ thrash # "" THEN [v EXCEPT !.kf = {thrash}] ELSE v
     IN PrintT(Line(IF w.kf = {} THEN "VIOLATION" ELSE "KNOWN", w, r))
 
 ObsModel ==
   /\ l <= Len(Log) /\ Log[l].ev = "model"
   /\ l' = l + 1 /\ sc' = sc + 1 /\ seen' = {}
   /\ thrash' = LET x == Log[l].x IN
-               IF "natural" \in DOMAIN x /\ "cap" \in DOMAIN x /\ "n" \in DOMAIN x THEN x.cap < x.n ELSE FALSE
+               IF "natural" \in DOMAIN x /\ "cap" \in DOMAIN x /\ "n" \in DOMAIN x /\ "rt" \in DOMAIN x
+               THEN IF x.cap < x.n THEN "KF_cache_thrash_instances"
+                    ELSE IF x.rt # "ct" /\ x.n > 1 THEN "KF_unsynchronised_process" ELSE ""
+               ELSE ""
   /\ procs' = [p \in Pids |-> AbsentProc]
   /\ queue' = {} /\ spawn' = {}
   /\ budget' = MaxActions
@@ -272,7 +281,7 @@ ObsStep ==
         IN /\ Report(new, r)
            /\ seen' = seen \cup new
 
-ObsInit == Init /\ l = 1 /\ sc = 0 /\ seen = {} /\ thrash = FALSE
+ObsInit == Init /\ l = 1 /\ sc = 0 /\ seen = {} /\ thrash = ""
 ObsNext == ObsModel \/ ObsSub \/ ObsSkip \/ ObsStep
 ObsSpec == ObsInit /\ [][ObsNext]_ovars
 
